@@ -12,7 +12,7 @@
    The composition with the task executor (coq/Timer/Model.v) is validated by the
    correspondence check, not proved: C05 is `partial` in that sense (DESIGN.md section 10). *)
 From Coq Require Import List NArith.
-From DesVerif Require Import Timer.Driver Timer.QueueLemmas Timer.Inv Timer.Exact Timer.Futures Timer.FutureLaws.
+From DesVerif Require Import Timer.Driver Timer.QueueLemmas Timer.Inv Timer.Exact Timer.Futures Timer.FutureLaws Timer.Model Timer.Compose.
 Import ListNotations.
 Open Scope N_scope.
 
@@ -87,6 +87,21 @@ Proof.
   - intros V vpoll Hv v dl. exact (acts_mid _ _ _ (timeout_poll_acts V vpoll t v dl dr Hv) Hm).
 Qed.
 Print Assumptions C05_futures_keep_invariant.
+
+(* The composite model that predicts the implementation's logs (coq/Timer/Model.v: scripted
+   tasks, FIFO executor, drivers, event set) is tied to the theorems above this far: during one
+   event of module m at time t -- whatever tasks are woken or spawned and however they run --
+   the driver of m goes through exactly an [event_body] with a contract-respecting operation
+   list, and the other module's driver is untouched.  Not proved about the composite: that its
+   event set serves events in time order (C01) and that its task logs are what the property
+   demands; the correspondence check validates those on every run. *)
+Theorem C05_composite_event_is_driver_event : forall (t m : N) (spawn : list nat) (fire : bool) (w : world),
+  (exists ops, ops_wf t ops /\
+     drv_of (module_event t m spawn fire w) m =
+     snd (event_body true t ops (if fire then sched_fire t (drv_of w m) else drv_of w m))) /\
+  forall m', (m' =? 0) <> (m =? 0) -> drv_of (module_event t m spawn fire w) m' = drv_of w m'.
+Proof. exact module_event_is_driver_event. Qed.
+Print Assumptions C05_composite_event_is_driver_event.
 
 (* a deadline that is already reached completes at once, without registering *)
 Theorem C05_due_deadline_completes_immediately : forall now s dr, deadline s <= now ->
